@@ -10,33 +10,56 @@ def classify(T, v, data):
 def run(ctx):
     ctx.rule = ('members of BER(T, v) drawn by an independent reference generator making every X.690 choice point at random (short/long/'
                 'over-long lengths, definite/indefinite per constructed element, primitive or arbitrarily (also nested) segmented strings, any '
-                'non-zero TRUE, SET order, DEFAULT present/absent); each drawn encoding is first validated in Coq by the X.690 reference reader '
+                'non-zero TRUE, SET order, DEFAULT present/absent), over random types, every presence pattern of three-member SEQUENCE/SET types, and fixed segmented BIT STRINGs with zero leading octets; each drawn encoding is first validated in Coq by the X.690 reference reader '
                 '(Spec.X690.read), then decoded by the implementation and the model; non-trivial = differs from the DER encoding')
     search_only = getattr(ctx, 'search_only', False)
     cases = codec.gen_cases(ctx, ctx.n(120, 2500), depth=3)
+    cases += codec.presence_grid_cases(ctx, every=3 if ctx.tier == 'quick' else 1)      # every OPTIONAL/DEFAULT pattern of a 3-member SEQUENCE / SET
     exprs, meta, vexprs, vmeta = [], [], [], []
-    for c in cases:
-        der = I.run_encode('DER', c.obj)
-        for _ in range(3):
+    # deterministic segmented BIT STRINGs: values with all-zero leading octets, cut after every octet, two and three
+    # segments, definite and indefinite, also with an empty segment in front (each validated by the spec reader below)
+    fixed = []
+    def _seg(parts, pad, indef, outer=0x23):
+        tl = [bytes([3, len(p) + 1, pad if i == len(parts) - 1 else 0]) + p for i, p in enumerate(parts)]
+        body = b''.join(tl)
+        return bytes([outer, 0x80]) + body + b'\x00\x00' if indef else bytes([outer, len(body)]) + body
+    for body, pad in ((b'\x00\xa9', 0), (b'\x00\x00\xa9', 0), (b'\x00\x00', 0), (b'\x00\x00\x80', 7), (b'\x00\xa0', 4), (b'\x80\x00\x00', 3)):
+        nbits = len(body) * 8 - pad
+        bits = tuple(int(x) for x in ''.join('{:08b}'.format(o) for o in body)[:nbits])
+        cb = codec.Case(('bits',), ('bits', bits))
+        for cut in range(1, len(body)):
+            for indef in (False, True):
+                fixed.append((cb, _seg([body[:cut], body[cut:]], pad, indef)))
+                fixed.append((cb, _seg([b'', body[:cut], body[cut:]], pad, indef)))
+        if len(body) == 3:
+            fixed.append((cb, _seg([body[:1], body[1:2], body[2:]], pad, True)))
+    for c in cases + [None]:
+        der = I.run_encode('DER', c.obj) if c is not None else None
+        for k in range(3 if c is not None else len(fixed)):
+            if c is None:
+                cc, data = fixed[k]
+            else:
+                cc = c
             try:
-                data = x690gen.encode(ctx.rng, c.T, c.v)
+                if c is not None:
+                    data = x690gen.encode(ctx.rng, c.T, c.v)
             except Exception as e:
                 ctx.stats['generator_declines:%s' % type(e).__name__] += 1
                 continue
-            ctx.case((c.cty, c.cval, data), der[0] != 'ok' or data != der[1])
+            ctx.case((cc.cty, cc.cval, data), der is None or der[0] != 'ok' or data != der[1])
             ctx.stats['indefinite' if b'\x80' in data else 'definite'] += 1
-            m = {'T': c.T, 'v': c.v, 'bytes': data.hex()}
-            d = I.run_decode('BER', data, asn1Spec=c.spec)
-            d_lit, dd = codec.dec_lit(c.T, d)
+            m = {'T': cc.T, 'v': cc.v, 'bytes': data.hex()}
+            d = I.run_decode('BER', data, asn1Spec=cc.spec)
+            d_lit, dd = codec.dec_lit(cc.T, d)
             fail = None
             if d[0] != 'ok': fail = 'decoder raised %s' % d[1]
             elif d[2]: fail = 'non-empty remainder'
-            elif not U.aval_eq(dd[1], c.want): fail = 'different abstract value'
+            elif not U.aval_eq(dd[1], cc.want): fail = 'different abstract value'
             # the generator itself is validated against the specification
-            vexprs.append('match read %s %s with Some (a, []) => if aval_eqb a (abs %s %s) then 0 else 1 | _ => 1 end' % (c.cty, cbytes(data), c.cty, c.cval))
+            vexprs.append('match read %s %s with Some (a, []) => if aval_eqb a (abs %s %s) then 0 else 1 | _ => 1 end' % (cc.cty, cbytes(data), cc.cty, cc.cval))
             vmeta.append((m, fail))
             if not search_only:
-                exprs.append(codec.dec_expr('BER', c, data, d_lit)); meta.append(m)
+                exprs.append(codec.dec_expr('BER', cc, data, d_lit)); meta.append(m)
     if vmeta: ctx.sample(vmeta[0][0]); ctx.sample(vmeta[-1][0])
     vcodes = core.coq_codes('c09v', 'Spec.X690', vexprs)
     for i, (m, fail) in enumerate(vmeta):
